@@ -567,7 +567,10 @@ theorem replaceAround_undo_partial (S : Schema) (doc doc' doc'' : Node) (f t gf 
    * the final replace of the inverse, as for plain replace steps — guard `hj` (`sidesCompatible` for the
      slice with the gap inserted).
    `replaceAround_undo` below proves the statement under these three decidable hypotheses (and the
-   pair-alignment proviso). -/
+   pair-alignment proviso); `replaceAround_undo_needs_guard` is the checked counterexample for the fit
+   check.  `replaceAround_undo_structural` discharges the fit guard for the shapes `lift`, `wrap` and
+   `set_node_markup` emit (`gapClean`: the gap lies between complete children, no text merge across it);
+   the structure checks `hst` stay a hypothesis (two `content_between` evaluations on `doc'`). -/
 
 /-- **the inverse of a successfully applied replace-around step applies and restores the document**,
     provided the three checks of the inverse that the forward step does not imply pass:
